@@ -149,6 +149,29 @@ def worker(unit, emit):
                 emit.count('cases')
 
 
+def ordered_worker(unit, emit):
+    """Element strings constructed by the specification (Gen_GS1.tla) in arbitrary identifier order."""
+    items, p = unit
+    lib.load_stdnum()
+    from stdnum import gs1_128
+    for it in items:
+        x, sep = it['x'], it['sep']
+        sl = lambda r: {'k': r['k'], 't': r['t'], 'v': r['v']}
+
+        def canon_of(r):
+            return r['j'] if r['k'] == 'ret' and r['t'] == 'dict' else 'EXC ' + (r['cls'] or r['t'])
+        dec1 = lib.call(gs1_128.info, x, separator=sep)
+        val1 = lib.call(gs1_128.validate, x, separator=sep)
+        val1_s = lib.from_cps(val1['v']) if val1['k'] == 'ret' and val1['t'] == 'str' else None
+        dec2 = lib.call(gs1_128.info, val1_s, separator=sep) if val1_s is not None else val1
+        val2 = lib.call(gs1_128.validate, val1_s, separator=sep) if val1_s is not None else val1
+        emit.trace([{'m': [], 'spec_covers': False, 'ordered': True, 'sep': lib.cps(sep), 'paren': it['paren'], 'enc': sl(val1),
+                     'dec1': canon_of(dec1), 'want': it['want'], 'val1': sl(val1), 'dec2': canon_of(dec2), 'val2': sl(val2)}],
+                   {'m': 'gs1_128', 'w': x, 'how': 'spec-constructed order %s sep %r paren %s' % (it['order'], sep, it['paren']),
+                    'site': dec1.get('site', '') or val1.get('site', ''), 'dec1': canon_of(dec1)[:200], 'val1': val1_s, 'fmts': it['fmts']})
+        emit.count('ordered_cases')
+
+
 def main():
     chk = run.Check(PROP)
     quick = chk.tier == 'quick'
@@ -183,6 +206,56 @@ def main():
         fm = meta.get('fmts', [])
         return {'witness': meta.get('how', ''), 'detail': meta, 'site': meta.get('site', ''), 'module': 'gs1_128'}
     chk.report(rej, describe=describe)
+    # ---- spec -> code: element strings constructed by Gen_GS1.tla in arbitrary identifier order
+    by = dict((r['ai'], r) for r in rows)
+    rnd2 = random.Random(chk.seed + 1)
+    mapsfile = os.path.join(chk.work, 'maps.ndjson')
+    pending = {}
+    with open(mapsfile, 'w') as fh:
+        for mi in range(400 if quick else 12000):
+            k = rnd2.randrange(2, 5)
+            cand = [a for a in rnd2.sample(ais, 12) if by[a]['parsed'] and by[a]['type'] in ('str', 'int') or (by[a]['type'] == 'date' and by[a]['fmt'] == 'N6')
+                    or (by[a]['type'] == 'decimal' and by[a]['fmt'] in ('N6', 'N4'))]
+            fam = {}
+            for a in cand:
+                fam.setdefault(a[:3] if by[a]['type'] == 'decimal' else a, a)
+            sel = sorted(fam.values())[:k]
+            if len(sel) < 2:
+                continue
+            mp, specm = {}, []
+            okm = True
+            for a in sel:
+                v, sv = value_for(by[a], rnd2, rnd2.choice(['min', 'mid', 'max']))
+                if sv is None:
+                    okm = False
+                    break
+                mp[a] = v
+                specm.append({'row': {'ai': lib.cps(a), 'parts': [{'cls': q['cls'], 'min': q['min'], 'max': q['max']} for q in by[a]['parts']],
+                                      'type': by[a]['type'], 'fnc1': by[a]['fnc1']}, 'val': sv})
+            if not okm:
+                continue
+            order = list(range(1, len(sel) + 1))
+            rnd2.shuffle(order)
+            sep = rnd2.choice(p['seps'])
+            paren = rnd2.random() < 0.5
+            pending[mi] = {'want': json.dumps(lib.canon(mp), sort_keys=True, ensure_ascii=True), 'sep': sep, 'paren': paren,
+                           'order': [sel[i - 1] for i in order], 'fmts': [by[a]['fmt'] + '/' + by[a]['type'] for a in sel]}
+            fh.write(json.dumps({'id': mi, 'm': specm, 'order': order, 'sep': lib.cps(sep), 'paren': paren}) + '\n')
+    rg = tlc.run('Gen_GS1', workdir=chk.work, workers=1, env={'MAPS_FILE': mapsfile}, heap='3g')
+    items = []
+    for ln in rg.prints:
+        v = tlc.parse_value(ln)
+        if v and v[0] == 'X' and v[1] in pending:
+            items.append(dict(pending[v[1]], x=lib.from_cps(v[2])))
+    if len(items) < len(pending):
+        raise run.MachineryError('Gen_GS1 constructed %d of %d element strings\n%s' % (len(items), len(pending), rg.out[-1500:]))
+    chk.cov['states'] += rg.distinct
+    chk.cov['transitions'] += rg.generated
+    osh = chk.drive([(items[i::16], p) for i in range(16)], ordered_worker)
+    oextra = run.merge_extra(osh)
+    rej = chk.validate('Trace_GS1', osh, own_clauses={'E1', 'RT1', 'RT2', 'RT3'}, label='spec-constructed element strings in arbitrary order')
+    chk.report(rej, describe=describe)
+    extra['cases'] = extra.get('cases', 0) + oextra.get('ordered_cases', 0)
     return chk.finish(samples=first_meta(shards), distinct_nontrivial=extra.get('cases', 0),
                       rule='every application identifier alone in 3 length classes and random combinations of 2-5 identifiers, values drawn from the '
                            'declared format (canonical: no edge spaces, no leading zeros, dates with real days, decimals with 0-9 implied places), '
